@@ -4,34 +4,39 @@ PROP = {
     "model": "C01_Command.Model",
     "design_ref": "DESIGN.md 7.1",
     "level_text": "Coq theorems about a fault-injecting transition system of the command processor's write pipeline "
-                  "(recovery -> validation -> putPLog -> applyRecords -> fork(sync projector || PutWlog) -> reply -> drop "
-                  "partition state on failure), for every history of commands and restarts, every trust level and every "
+                  "(recovery -> validation -> putPLog -> applyRecords -> fork(flush of the sync projectors one after the "
+                  "other || PutWlog) -> reply -> drop partition state on failure), for every history of commands and "
+                  "restarts, every trust level, every number and flush order of sync projectors and every "
                   "fault plan (any set of (target, k-th write, error-before / error-after / 'exists')), proved through one "
-                  "inductive invariant: after one fault-free recovery PLog, WLogs, records and the sync projection describe "
-                  "the same events (offsets 1..n and per-workspace 1..m without gaps, records = fold of the PLog); the PLog "
+                  "inductive invariant: after one fault-free recovery PLog, WLogs, records and every sync projection describe "
+                  "the same events (offsets 1..n and per-workspace 1..m without gaps, records = fold of the PLog, one row "
+                  "per event in every projector's view); the PLog "
                   "holds exactly the commands whose PLog write took effect, once each, in order, with the rows, IDs and offset "
                   "of their replies (success => in all stores, 4xx or PLog write without effect => in none, later failure => "
                   "completed by recovery); log entries never change once written; a clean insert after any history succeeds; "
-                  "exactly one reply per command when putPLog hands the error on, refuted by a witness for the code as it is "
-                  "(finding F11: the flag is read from the Go source by the translator) and proved for histories without a "
-                  "PLog fault; the model is tied to the real command processor by replaying observed scenarios (replies, "
+                  "exactly one reply per command; the theorems are stated for the code as it is through reflexivity side "
+                  "conditions on two shape flags the translator reads from the Go source (putPLog returns the error - "
+                  "F11, repaired; the sync actualizer's flush loop stops at the first error), each with a refutation "
+                  "witness for the flag-false variant; the model is tied to the real command processor by replaying observed scenarios (replies, "
                   "issued storage calls, fired faults, read-back of all four stores) inside Coq on every run",
     "level_note": "trusted: Coq kernel/vm_compute, translator, harness (external replica of the command processor's test "
                   "setUp, kit.Wrap fault injection); modelled not verified: istructsmem's event and record encoding (an "
                   "event is (stamp, ws, WLog offset, CUD rows), a record is (V, sys.IsActive)), the pipeline framework, "
-                  "the sync actualizer (one idempotent projector writing one view row per event), the bus; everything that "
+                  "the sync actualizer's pipeline (idempotent projectors writing one view row per event each), the bus; everything that "
                   "refuses a command before putPLog is one boolean",
     "properties_file": "theories/Properties/C01.v",
-    "n": {"quick": 450, "thorough": 6000},
+    "n": {"quick": 500, "thorough": 6000},
     "shards": {"quick": 1, "thorough": 12},
     "cases_per_file": 60,
     "rule": "scenario = history of 1-5 CUD commands (inserts, updates, deactivations; three workspaces of one partition; "
             "about a seventh refused: malformed JSON, no rows, wrong field type, sys.IsActive mixed with fields, unknown "
             "record, duplicate raw IDs), processor restarts (processor only / everything above the storage) at command "
             "boundaries, per command a fault plan over (PLog | records | view | WLog) x k-th write x (before | after | "
-            "exists), then one clean insert; quick: no fault + every single fault on a fixed 3-command history at trust "
-            "level 0, the faults of its richest command at levels 1 and 2, 30 pairs (fault, then fault during the next "
-            "command's recovery), 48 cases restart-at-a-boundary + fault in the recovery or after it, then random "
+            "exists), three sync projectors with a view each (k-th view write = the flush of the k-th projector in "
+            "the actualizer's map order), then one clean insert and the read-back of PLog, WLogs, records and every view; quick: no fault + every single fault on a fixed 3-command history at trust "
+            "level 0 (each projector's view write in turn), the faults of its richest command at levels 1 and 2, 70 pairs "
+            "(fault, then fault during the next command's recovery), 80 cases restart-at-a-boundary + fault in the "
+            "recovery or after it, then random "
             "histories with 0-3 faults; thorough: "
             "per shard one of 4 fixed histories x trust level with every single and every double fault, then random; a "
             "scenario in which the processor died is emitted twice (second copy judged on everything but the missing "
@@ -43,5 +48,6 @@ PROP = {
                     "storage reads do not fail (faults are injected at write calls only)",
                     "a command names a record at most once (the real code merges two updates of one record; not generated)",
                     "updates address user records (IDs >= FirstUserRecordID); fewer than 2^64 - 200001 inserts per workspace",
-                    "the update rows of an event are an unordered map in the Go code: generated and compared in ascending ID order"],
+                    "the update rows of an event are an unordered map in the Go code: generated and compared in ascending ID order",
+                    "which sync projector a k-th view write belongs to (Go map order) is not compared; the theorems hold for every order"],
 }
